@@ -27,6 +27,7 @@ pub mod hstubs;
 pub mod c01_flags;
 pub mod c01_reader;
 pub mod c01_pool;
+pub mod c01_tree;
 pub mod c02_jumps;
 pub mod c02_args;
 pub mod qk;
@@ -47,6 +48,7 @@ pub fn all() -> Vec<(&'static str, fn())> {
 	v.extend_from_slice(c01_flags::LIST);
 	v.extend_from_slice(c01_reader::LIST);
 	v.extend_from_slice(c01_pool::LIST);
+	v.extend_from_slice(c01_tree::LIST);
 	v.extend_from_slice(c02_jumps::LIST);
 	v.extend_from_slice(c02_args::LIST);
 	v.extend_from_slice(c04_action::LIST);
